@@ -1,4 +1,5 @@
 import JP.Lemmas.LegacyEngineDefs
+import JP.Lemmas.LegacyRespell
 
 /-!
 # Legacy package: marshalling (`cstOf`), `deepCopy`, `deepParse`, decoding one level
@@ -189,15 +190,27 @@ theorem RawOK_iff (c : Cst) : RawOK c = true ↔ Impl.CstOK true c = true ∧ St
 
 /-! ### 2b. the printed members of a parsed object -/
 
+/-- a name that survives the fork's quoting survives the standard library's (`\\b` / `\\f` for
+`\\u0008` / `\\u000c`): both spellings decode to the same bytes -/
+theorem QK_eq_std {k : Bytes} (h : Impl.QK true k = true) : unquote (quoteBodyStd k) = k := by
+  rw [unquote_quoteBodyStd]; exact Impl.QK_eq h
+
+theorem EscOK_quoteBodyStd (k : Bytes) : Impl.EscOK true (quoteBodyStd k) = true := by
+  simp only [Impl.EscOK, Impl.escB, if_true, Bool.and_eq_true, beq_iff_eq, escBody_quoteBodyStd, and_self]
+
+theorem QK_unquote_quoteBodyStd {k : Bytes} (h : Impl.QK true k = true) :
+    Impl.QK true (unquote (quoteBodyStd k)) = true := by
+  rw [QK_eq_std h]; exact h
+
 /-- the members `json.Marshal` prints for a map -/
 def printedM (ob : NMembers) : List (Bytes × Cst) :=
-  (sortByName (cstOfM ob)).map fun m => (quoteBody true m.1, m.2)
+  (sortByName (cstOfM ob)).map fun m => (quoteBodyStd m.1, m.2)
 
 theorem cstOf_doc (ob : NMembers) : cstOf (.doc ob) = .obj (printedM ob) := by
   simp only [cstOf, printedM]
 
 theorem mem_printedM {ob : NMembers} {m : Bytes × Cst} :
-    m ∈ printedM ob ↔ ∃ p ∈ ob, m = (quoteBody true p.1, cstOf p.2) := by
+    m ∈ printedM ob ↔ ∃ p ∈ ob, m = (quoteBodyStd p.1, cstOf p.2) := by
   simp only [printedM, List.mem_map, mem_sortByName, cstOfM_eq_map]
   constructor
   · rintro ⟨a, ⟨p, hp, rfl⟩, rfl⟩; exact ⟨p, hp, rfl⟩
@@ -214,7 +227,7 @@ theorem keys_valueOfM_printedM {ob : NMembers} (hq : ∀ p ∈ ob, Impl.QK true 
     intro m hm
     rw [mem_sortByName, cstOfM_eq_map, List.mem_map] at hm
     obtain ⟨p, hp, rfl⟩ := hm
-    exact Impl.QK_eq (hq p hp)
+    exact QK_eq_std (hq p hp)
   rw [h1, ← keys_cstOfM ob]
   exact sortByName_keys_perm _
 
@@ -225,7 +238,7 @@ theorem mem_valueOfM_printedM {ob : NMembers} (hq : ∀ p ∈ ob, Impl.QK true p
   obtain ⟨m, hm, he⟩ := h
   obtain ⟨p, hp, rfl⟩ := mem_printedM.1 hm
   simp only [Prod.mk.injEq] at he
-  exact ⟨p, hp, by rw [← he.1]; exact Impl.QK_eq (hq p hp), he.2.symm⟩
+  exact ⟨p, hp, by rw [← he.1]; exact QK_eq_std (hq p hp), he.2.symm⟩
 
 theorem sim_null : Sim .null .null := ⟨rfl, rfl, rfl⟩
 
@@ -352,7 +365,7 @@ theorem RawOK_printedM {ob : NMembers} (hq : ∀ p ∈ ob, Impl.QK true p.1 = tr
   constructor
   · intro m hm
     obtain ⟨p, hp, rfl⟩ := mem_printedM.1 hm
-    exact ⟨Impl.EscOK_quoteBody (hq p hp), Impl.QK_unquote_quoteBody (hq p hp),
+    exact ⟨EscOK_quoteBodyStd p.1, QK_unquote_quoteBodyStd (hq p hp),
       ((RawOK_iff _).1 (hs p hp)).1⟩
   · intro m hm
     obtain ⟨p, hp, rfl⟩ := mem_printedM.1 hm
